@@ -99,13 +99,15 @@ Definition with_fun (s : pstate) (f : edfun) := mkP (kind s) (vals s) (pol s) f 
 Definition with_geom (s : pstate) (a : bool) (g : option (list (Q * Q))) :=
   mkP (kind s) (vals s) (pol s) (efun s) a g.
 
-Inductive res := ROk | RValue | RAttr | RZero.      (* RZero = ZeroDivisionError *)
-Definition res_code (r : res) : Z := match r with ROk => 0 | RValue => 1 | RAttr => 2 | RZero => 3 end.
+Inductive res := ROk | RValue | RAttr | RZero | RType.      (* RZero = ZeroDivisionError, RType = TypeError *)
+Definition res_code (r : res) : Z := match r with ROk => 0 | RValue => 1 | RAttr => 2 | RZero => 3 | RType => 4 end.
 
 Inductive pop :=
 | PSet (f : fld) (v : Q)              (* obj.<property> = v *)
 | PSetPol (p : vec)                   (* obj.set_polarization(Vector3D(p)) *)
-| PAttach.                            (* laser.laser_profile = obj   (again, on the same Laser node) *)
+| PAttach                             (* laser.laser_profile = obj   (again, on the same Laser node) *)
+| PBad (t : option fld).              (* obj.<property> = "3" / None / [1.0]  (Some f);  obj.set_polarization((0, 1, 0))  (None):
+                                         a value that is not a number / not a Vector3D *)
 
 (* Vector3D.normalise raises ZeroDivisionError for the zero vector *)
 Definition vec_is_zero (p : vec) : bool :=
@@ -154,24 +156,41 @@ Definition guarded (k : pkind) (f : fld) : bool :=
   | _, _ => true
   end.
 
+(* what a setter does after the assignment (source: the setter bodies of profile.pyx; the table is
+   regenerated from the current source on every run and compared by the kernel, coq/Gen/C18/Policy.v):
+   ANotify = self.notifier.notify();  AConst = install Constant3D(value);
+   AFunc = self._function_changed();  AFuncSz = _stddev_z = value * SPEED_OF_LIGHT, then _function_changed() *)
+Inductive act := ANone | ANotify | AConst | AFunc | AFuncSz.
+Definition action (k : pkind) (f : fld) : act :=
+  match k, f with
+  | _, Frad | _, Flen => ANotify
+  | KUniform, Fed => AConst
+  | KBiv, Fpe | KBiv, Fpl | KBiv, Fsx | KBiv, Fsy => AFunc
+  | KTri, Fpl => AFuncSz
+  | KTri, Fpe | KTri, Fsx | KTri, Fsy | KTri, Fmz => AFunc
+  | KBeam, Fpe | KBeam, Fpl | KBeam, Fwz | KBeam, Fsw | KBeam, Fwl => AFunc
+  | _, _ => ANone
+  end.
+
 Definition step (s : pstate) (o : pop) : pstate * res :=
   match o with
   | PSetPol p => (with_pol s p, ROk)       (* for a non-zero vector, see [pstep] *)
   | PAttach => (attach s, ROk)             (* listener removed and added again, configure_geometry() *)
+  | PBad None => (s, RType)                (* argument conversion to Vector3D fails before the body runs *)
+  | PBad (Some f) =>                       (* unknown attribute of a cdef class: AttributeError; otherwise the conversion to
+                                              double (typed setters) or the comparison value <= 0 raises TypeError first *)
+      if has_field (kind s) f then (s, RType) else (s, RAttr)
   | PSet f v =>
       if negb (has_field (kind s) f) then (s, RAttr)
       else if guarded (kind s) f && Qle_bool v 0 then (s, RValue)
       else
         let s1 := with_vals s (set f v (vals s)) in
-        match f with
-        | Frad | Flen => (notify s1, ROk)
-        | Fed => (with_fun s1 (FConst v), ROk)                 (* Constant3D(value) *)
-        | Fpl =>
-            match kind s with
-            | KTri => function_changed (with_vals s1 (set Fsz (v * c) (vals s1)))   (* _stddev_z = tau * c *)
-            | _ => function_changed s1
-            end
-        | _ => function_changed s1
+        match action (kind s) f with
+        | ANone => (s, RAttr)
+        | ANotify => (notify s1, ROk)
+        | AConst => (with_fun s1 (FConst v), ROk)                                   (* Constant3D(value) *)
+        | AFuncSz => function_changed (with_vals s1 (set Fsz (v * c) (vals s1)))    (* _stddev_z = tau * c *)
+        | AFunc => function_changed s1
         end
   end.
 
@@ -193,39 +212,41 @@ Fixpoint run (s : pstate) (ops : list pop) : pstate * list res :=
 Record pargs := mkA { a_vals : pvals; a_pol : vec }.
 
 Definition zero_vals : pvals := mkvals (fun _ => 0).
-Definition raw_vals (k : pkind) (a : pvals) : pvals :=
-  match k with
-  | KUniform => set Frad (1 # 20) (set Flen 1 zero_vals)
-  | KBiv => set Fpe 1 (set Fpl 1 (set Fsx (1 # 10) (set Fsy (1 # 10) (set Frad (1 # 20) (set Flen 1 zero_vals)))))
-  | KTri => set Fpe 1 (set Fpl 1 (set Fsx (1 # 10) (set Fsy (1 # 10) (set Fsz 1
-             (set Frad (1 # 20) (set Flen 1 (set Fmz (v_mz a) zero_vals)))))))
-  | KBeam => set Fpe 1 (set Fpl 1 (set Fsw (1 # 10) (set Fwz (v_wz a) (set Fwl 1000
-             (set Frad (1 # 20) (set Flen 1 zero_vals))))))
-  end.
 
-Definition init_ops (k : pkind) (a : pargs) : list pop :=
-  let v := a_vals a in
+(* __init__ as a script, statement by statement in source order (regenerated from the source on every
+   run and compared by the kernel, coq/Gen/C18/Policy.v):
+   IRawC f q : self._f = <literal q>     IRawA f : self._f = <the constructor argument>
+   ISet f    : self.f = <argument>  (the property setter)      IPol : self.set_polarization(polarization)
+   (set_pointing_function(ConstantVector3D(Vector3D(0, 0, 1))) has no effect on the modelled state) *)
+Inductive itok := IRawC (f : fld) (q : Q) | IRawA (f : fld) | ISet (f : fld) | IPol.
+
+Definition init_script (k : pkind) : list itok :=
   match k with
-  | KUniform => [PSetPol (a_pol a); PSet Fed (v_ed v); PSet Frad (v_rad v); PSet Flen (v_len v)]
-  | KBiv => [PSet Frad (v_rad v); PSet Flen (v_len v); PSetPol (a_pol a); PSet Fsx (v_sx v); PSet Fsy (v_sy v);
-             PSet Fpe (v_pe v); PSet Fpl (v_pl v); PSetPol (a_pol a)]
-  | KTri => [PSet Frad (v_rad v); PSet Flen (v_len v); PSet Fsx (v_sx v); PSet Fsy (v_sy v); PSet Fmz (v_mz v);
-             PSet Fpe (v_pe v); PSet Fpl (v_pl v); PSetPol (a_pol a)]
-  | KBeam => [PSet Flen (v_len v); PSet Frad (v_rad v); PSetPol (a_pol a); PSet Fsw (v_sw v); PSet Fwz (v_wz v);
-              PSet Fpe (v_pe v); PSet Fpl (v_pl v); PSet Fwl (v_wl v)]
+  | KUniform => [IPol; ISet Fed; IRawC Frad (1 # 20); IRawC Flen 1; ISet Frad; ISet Flen]
+  | KBiv => [IRawC Fpe 1; IRawC Fpl 1; IRawC Fsx (1 # 10); IRawC Fsy (1 # 10); IRawC Frad (1 # 20); IRawC Flen 1;
+             ISet Frad; ISet Flen; IPol; ISet Fsx; ISet Fsy; ISet Fpe; ISet Fpl; IPol]
+  | KTri => [IRawC Fpe 1; IRawC Fpl 1; IRawC Fsx (1 # 10); IRawC Fsy (1 # 10); IRawC Fsz 1; IRawC Frad (1 # 20);
+             IRawC Flen 1; IRawA Fmz; ISet Frad; ISet Flen; ISet Fsx; ISet Fsy; ISet Fmz; ISet Fpe; ISet Fpl; IPol]
+  | KBeam => [IRawC Fpe 1; IRawC Fpl 1; IRawC Fsw (1 # 10); IRawA Fwz; IRawC Fwl 1000; IRawC Frad (1 # 20);
+              IRawC Flen 1; ISet Flen; ISet Frad; IPol; ISet Fsw; ISet Fwz; ISet Fpe; ISet Fpl; ISet Fwl]
   end.
 
 (* an exception in __init__ aborts the construction *)
-Fixpoint run_init (s : pstate) (ops : list pop) : option pstate :=
-  match ops with
+Fixpoint run_script (s : pstate) (a : pargs) (l : list itok) : option pstate :=
+  match l with
   | [] => Some s
-  | o :: t => match step s o with (s1, ROk) => run_init s1 t | _ => None end
+  | t :: r =>
+      match t with
+      | IRawC f q => run_script (with_vals s (set f q (vals s))) a r
+      | IRawA f => run_script (with_vals s (set f (get f (a_vals a)) (vals s))) a r
+      | ISet f => match step s (PSet f (get f (a_vals a))) with (s1, ROk) => run_script s1 a r | _ => None end
+      | IPol => match step s (PSetPol (a_pol a)) with (s1, ROk) => run_script s1 a r | _ => None end
+      end
   end.
 
 (* Class(args) followed by laser.laser_profile = obj; None = the constructor raised *)
 Definition construct0 (k : pkind) (a : pargs) : option pstate :=
-  let s0 := mkP k (raw_vals k (a_vals a)) (0, 0, 0) FUnset false None in
-  match run_init s0 (init_ops k a) with
+  match run_script (mkP k zero_vals (0, 0, 0) FUnset false None) a (init_script k) with
   | Some s => Some (attach s)
   | None => None
   end.
